@@ -34,6 +34,11 @@ func parseTextDescription(data []byte) (TextDescription, error) {
 		return desc, err
 	}
 
+	// The count includes the terminating null and cannot exceed what the tag holds.
+	if asciiCount == 0 || uint64(asciiCount) > uint64(reader.Len()) {
+		return desc, fmt.Errorf("invalid ASCII description length %d", asciiCount)
+	}
+
 	asciiBytes := make([]byte, asciiCount-1)
 	for i := 0; i < len(asciiBytes); i++ {
 		asciiBytes[i], err = reader.ReadByte()
